@@ -90,7 +90,13 @@ impl DateTime {
         self.balance_month();
         while self.day > 366 {
             //dbg!(self.day);
-            self.day -= year_len_days(self.year);
+            // The next 12 months include February of next year when we are past February.
+            let year = if self.month > 2 {
+                self.year + 1
+            } else {
+                self.year
+            };
+            self.day -= year_len_days(year);
             //dbg!(self.day);
             //dbg!(self.year);
             self.year += 1;
